@@ -60,6 +60,32 @@ chk('C06',
     'either the innermost or the outermost pair.',
     'sanitizer build + reference-model monitor (grammar-aware renderer with spans) over generated expressions', 'DESIGN.md 4 C06')
 
+chk('C01',
+    'Runtime monitoring with a reference evaluator: type-directed expressions over generated contexts and '
+    'interpretations are evaluated by the real Interpreter in several metamorphic variants (MATH/ASCII, redundant '
+    'parentheses, debool({e}), declarative and imperative copies of set values) and every result is compared with a '
+    'strict Python evaluator (frozenset/tuple/int/bool semantics); documented runtime errors are handled three-valued.',
+    'Trusted: vf/rseval.py (semantics) and vf/rstypes.py (what is well-typed). Cases where the strict reference meets a '
+    'documented error and no reference value exists are unspecified; int32 overflow is unspecified.',
+    'sanitizer build + reference-model monitor (executable set-theoretic evaluator) over generated programs and data', 'DESIGN.md 4 C01')
+
+chk('C02',
+    'Runtime monitoring with sanitizers as the primary oracle: every expression the real checker accepts (well-typed '
+    'ones, near-miss mutants, boundary integer and lazy-set stress inputs) is evaluated on the ASan+UBSan+'
+    '_GLIBCXX_ASSERTIONS build under type-compatible data; deaths, escaped exceptions, the unknown evaluation error and '
+    'value/type structure mismatches (Python check of every element + library CheckCompatible) are violations.',
+    'Trusted: the sanitizers (a clean run is not memory safety), the Python conformance check. Function definitions and '
+    'bare declarations are exercised for safety only.',
+    'ASan+UBSan+libstdc++ assertions + exception trap + value/type conformance monitor over accepted programs', 'DESIGN.md 4 C02')
+
+chk('C03',
+    'Runtime monitoring with a reference model: expressions, near-miss mutants, definitions and a recursion-depth '
+    'ladder over generated type contexts are checked by the real Auditor; verdict, typification, declared arguments, '
+    'value class and error positions are compared with an independent implementation of the typing rules.',
+    'Trusted: vf/rstypes.py as the statement of the rules (DESIGN.md appendix A); a few constructs whose result the '
+    'rules do not determine are counted as unspecified.',
+    'sanitizer build + reference-model monitor (independent typing rules) over generated programs and contexts', 'DESIGN.md 4 C03')
+
 for _p in ['C01', 'C02', 'C03', 'C04', 'C05', 'C06', 'C07', 'C08', 'C09', 'C10', 'C11', 'C12', 'C13', 'C15', 'C16',
            'C17', 'C18', 'C19']:
     if _p not in CHECKS:
